@@ -707,9 +707,22 @@ def search_enums(ck: Check) -> None:
             continue
         for model in ("pydantic_v2.BaseModel", "dataclasses.dataclass"):
             for opts in ({}, {"set_default_enum_member": True}, {"enum_field_as_literal": "all"}):
-                e2e_case(ck, camp, case_of(inp), Cfg(), model, opts)
+                e2e_case(ck, camp, case_of(inp), cfg_of(inp) if inp.get("cfg_fields") else Cfg(), model, opts)
                 if ck.failures:
                     return
+    # spellings of every reserved name in one enum, at every caller of the enum resolver, under the option vectors that fold them
+    t0 = time.time()
+    for ti, target in enumerate(enum_callers.RESERVED_TARGETS):
+        for ci, cfg in enumerate(enum_callers.ENUM_NAME_CFGS[:7]):
+            for position in (enum_callers.POSITIONS if (ti + ci) % 4 == 0 else ("graphql", "property")):
+                vals = [v for v in enum_callers.spellings(target)
+                        if position != "graphql" or enum_callers.graphql_compatible("string", [v], None)][:7]
+                if vals:
+                    e2e_case(ck, camp, Case("string", vals, via=position), cfg, e2e.EXECUTABLE_KINDS[(ti + ci) % 4], {})
+                if ck.failures:
+                    return
+        if time.time() - t0 > 40:
+            break
     vocab = ["a", "A", "a b", "a-b", "a'", "mro", "class", "", "1", "x\\", "é"]
     for i, a in enumerate(vocab):
         for b in vocab[i + 1 :]:
